@@ -74,3 +74,21 @@ Example writer_reader_roundtrip_example :
   ex_contents = Ok [(ascii_bytes "t", [(k8 1, [k8 10]); (k8 2, [k8 20]); (k8 3, [k8 30]); (k8 7, [k8 70])])]
   /\ wf_imageb ex_image = true.
 Proof. vm_compute. split; reflexivity. Qed.
+
+(* ------------------------------------------------------------------------------------------------
+   Tie to the code (Gen/Fns.v is regenerated from base.rs / layout.rs on every run by tools/gen_fns.py):
+   the page-number packing and the file geometry of the format model are equal to the functions translated
+   from the Rust sources of the release under check. *)
+From RV Require Import Gen.FnsLib Gen.Fns Gen.FnsFormatP.
+
+Theorem c19_code_pagenum_to_u64_is_model : forall p,
+  PageNumber_to_le_bytes p = pagenum_to_u64 (pagenum_of p).
+Proof. exact pagenum_to_u64_is_model. Qed.
+
+Theorem c19_code_pagenum_of_u64_is_model : forall t, t < 2 ^ 64 ->
+  pagenum_of (PageNumber_from_le_bytes t) = pagenum_of_u64 t.
+Proof. exact pagenum_of_u64_is_model. Qed.
+
+Theorem c19_code_geom_of_len_is_model : forall psz hdr maxp file_len,
+  geom_of_layout (DatabaseLayout_recalculate file_len hdr maxp psz) = geom_of_len psz hdr maxp file_len.
+Proof. exact geom_of_len_is_model. Qed.
